@@ -1572,6 +1572,22 @@ def run(ctx, units=None):
             ctx.mismatch(data['input'], got, data['expected_marks'], 'corpus case %s: %s' % (fname, data.get('what', '')))
     if units is None:
         units = plan(ctx)
+        # the layer in front of the dispatcher: a webhook the server accepts must reach put_job whatever the worker is
+        # doing - the same request with an equal job running / done is answered and enqueued as on an idle server
+        from props import c14 as _c14
+        try:
+            n, diffs = _c14.webhook_busy_probe()
+        finally:
+            _c14.cleanup()
+        ctx.evaluations += n
+        ctx.count('webhook_busy_probe', n)
+        for c, state, idle, busy in diffs[:20]:
+            ctx.violation({'webhook': {k: c[k] for k in c if k != 'creds'}, 'server_state': 'equal job ' + state},
+                          {'status': idle[0], 'enqueued': idle[1]}, {'status': busy[0], 'enqueued': busy[1]},
+                          'a webhook the server accepts is not followed by an evaluation because an equal job is '
+                          'running or done (dropped before put_job)',
+                          key=core.canon({'what': 'webhook dropped while busy', 'state': state,
+                                          'event': c.get('event_key') or c.get('event')}))
     exhaustive_units = [u for u in units if u[0] == 'dfs']
     incomplete = 0
     slow = 0.0
